@@ -215,6 +215,12 @@ pub enum Step {
     ArmFaults { faults: Vec<Fault> },
     /// drop the Database while a write transaction (with these ops) is live; then end it
     DropDbDuringTxn { txn: Txn },
+    /// close, then attempt an open that is meant to fail (C20: close() exactly once, nothing after
+    /// it): kind 0 bad magic, 1 truncated file, 2 wrong page size requested, 3 repair aborted from
+    /// the callback (on a crash image), 4 the arg-th backend call of the open fails, 5 read-only open
+    /// of a file that needs repair; then reopen normally
+    #[serde(alias = "FailingOpen")]
+    FailingOpen { kind: u8, arg: u64 },
 }
 
 #[derive(Clone, Debug, Serialize, Deserialize, PartialEq)]
